@@ -214,11 +214,20 @@ def run(ctx):
                     ctx.fail("sending the same request again failed", meta, repr(e), "a reply")
                     continue
                 seen2 = srv.httpd.seen[-1] if srv.httpd.seen else None
-                if seen2 is None or seen2["body"] != seen["body"] or reply2.message != resp_body \
+                got2 = None if seen2 is None else seen2["body"]
+                try:
+                    # (compressed bytes may differ between two sends: gzip stamps the time; the content may not)
+                    if got2 is not None and ce == "gzip":
+                        got2 = gzip.decompress(got2)
+                    elif got2 is not None and ce == "deflate":
+                        got2 = zlib.decompress(got2)
+                except Exception as e:
+                    got2 = b"!undecodable: " + repr(e).encode()
+                if seen2 is None or got2 != msg or reply2.message != resp_body \
                         or any(hdr(seen2, k) != [v] for k, v in headers.items()):
                     ctx.fail("the same request sent again is not the same exchange", meta,
-                             None if seen2 is None else [seen2["body"][:40], reply2.message[:40]],
-                             [seen["body"][:40], resp_body[:40]])
+                             None if seen2 is None else [got2[:40], reply2.message[:40]],
+                             [msg[:40], resp_body[:40]])
         # ---- the SOAPAction a real client sends (declared in the WSDL, non-ASCII included), over the real transport
         for action in ("urn:act", "caf\u00e9-\u00fcber", "\u03a9mega", ""):
             wsdl = wsdlkit.wsdl_doc('<xsd:element name="f"><xsd:complexType><xsd:sequence/></xsd:complexType>'
